@@ -572,7 +572,7 @@ H_ApiRet(s, r, l) ==
        \* the peer's error is reported by the first end() that returns after it (a repeated end() is a usage error)
        R([s EXCEPT !.ss[i].endTold = (@ \/ (s.ss[i].pEnded /\ s.ss[i].pEndErr # "" /\ ~r.res.ok /\ r.res.cond = s.ss[i].pEndErr))],
             Chk("C13_TeardownWaits", ~r.res.ok \/ s.ss[i].pEnded \/ ~ConnUp(s), l, "end")
-          + Chk("C13_PeerError", ~(s.ss[i].pEnded /\ s.ss[i].pEndErr # "" /\ ~s.ss[i].endTold) \/ (~r.res.ok /\ r.res.cond = s.ss[i].pEndErr), l, "end"))
+          + Chk("C13_PeerError", ~(s.ss[i].pEnded /\ s.ss[i].pEndErr # "" /\ ~s.ss[i].endTold) \/ (~r.res.ok /\ r.res.cond = s.ss[i].pEndErr) \/ (s.peof \/ s.pclose \/ s.eeof), l, "end"))   \* (weaker reading: with the connection gone as well, close() is where the application learns it)
   ELSE IF r.op = "accept_link" /\ r.res.ok /\ s.badAttachPending THEN R([s EXCEPT !.badAttachPending = FALSE], Fail("C15_IllegalHandled", l, "attach-handle-in-use-accepted"))
   ELSE IF r.op \in {"attach_receiver", "accept_link"} THEN
        LET k == LinkByName(s, r.lname, FALSE) IN
@@ -633,7 +633,9 @@ FailureClauses(s, r, l) ==
   + Chk("C14_DataPathErr", ~(r.lname # "" /\ SessEndedFor(s, r.lname) /\ r.op \in {"send", "send_batchable", "recv", "dispose"}) \/ ~r.res.ok, l, "after-end")
     \* the error names the scope that stopped ...
     \* (after a teardown the application started itself the nearest scope it stopped may be named instead)
-  + Chk("C14_Level", r.res.ok \/ ~(ConnDead(s) /\ s.deadAt > 0 /\ StartedAt(s, r.call) > s.deadAt) \/ r.res.says_conn \/ s.appTeardown, l, r.op)
+    \* (when the peer had ended the link's session before the connection went down, naming the session -- with the peer's reason -- is naming the scope that stopped first)
+  + Chk("C14_Level", r.res.ok \/ ~(ConnDead(s) /\ s.deadAt > 0 /\ StartedAt(s, r.call) > s.deadAt) \/ r.res.says_conn \/ s.appTeardown
+                     \/ (r.res.says_sess /\ \E j \in DOMAIN s.ss : s.ss[j].pEnded), l, r.op)
   + Chk("C14_Level", r.res.ok \/ ConnDead(s) \/ r.lname = "" \/ ~SessEndedFor(s, r.lname) \/ (r.res.says_sess /\ ~r.res.says_conn), l, "session")
     \* ... and carries the peer's condition when one was supplied
     \* (an error that names a nearer scope the application stopped itself need not)
